@@ -112,6 +112,56 @@ def execute(lab, obs, s0, until=None):
     return p
 
 
+def sub_ticks(case):
+    """Subscribe ticks of the case: the first subscription and, optionally, a second subscription of the *same* observable."""
+    return [case["s0"]] + ([case["s1"]] if case.get("s1") is not None else [])
+
+
+def execute_all(lab, obs, ticks, until=None):
+    """Subscribe one probe per tick to the same observable object (in the given order)."""
+    probes = []
+    for i, t in enumerate(ticks):
+        p = lab.probe(f"p{i}")
+        lab.at(t, (lambda p=p: p.subscribe(obs)))
+        probes.append(p)
+    lab.run(until)
+    if until is not None:
+        for p in probes:
+            p.dispose()
+    return probes
+
+
+def combine(results, ticks):
+    """One verdict for all subscriptions: first failure wins (a failure of a later subscription gets its own signature)."""
+    for i, r in enumerate(results):
+        if r.inconclusive:
+            return r
+        if not r.ok:
+            if i > 0:
+                r.sig += ":2nd-subscription"
+                r.msg = f"[subscription #{i + 1} of the same observable object, subscribed at tick {ticks[i]}; first at {ticks[0]}] " + r.msg
+            return r
+    cls = []
+    for r in results:
+        for c in r.classes:
+            if c not in cls:
+                cls.append(c)
+    if len(results) > 1:
+        cls.append("second-subscription")
+        cls.append("second-subscription:" + ("same-tick" if ticks[1] == ticks[0] else "later-tick"))
+    return OK(any(r.nontrivial for r in results), cls)
+
+
+def second_sub(draw, s0, limit=None):
+    """Strategy helper: None (2 of 3) or a tick >= s0 for a second subscription of the same observable."""
+    if draw(st.integers(0, 2)) != 0:
+        return None
+    k = draw(st.sampled_from([0, 1, 1, 2, 3, 7]))
+    if limit is not None:
+        k = min(k, limit)
+    return s0 + k
+
+
 def prelude(lab, p, op, case):
     """Common verdict prefix: inconclusive / escaped exception / grammar. Returns a Result or None."""
     if lab.inconclusive:
